@@ -173,7 +173,7 @@ func (m *RWMutex) RUnlock() {
 		m.real.RUnlock()
 		return
 	}
-	simrt.RaceRelease(unsafe.Pointer(m))
+	simrt.RaceReleaseMerge(unsafe.Pointer(m)) // several readers release before the next writer acquires
 	simrt.Trap(rwOp{m, 3}, simrt.PreemptUnlock())
 }
 
@@ -217,7 +217,7 @@ func (w *WaitGroup) Add(delta int) {
 		return
 	}
 	if delta < 0 {
-		simrt.RaceRelease(unsafe.Pointer(w))
+		simrt.RaceReleaseMerge(unsafe.Pointer(w)) // every Done counts for the Wait that follows
 	}
 	simrt.Trap(wgOp{w, delta, false}, false)
 }
